@@ -109,6 +109,7 @@ fn gen(t: &mut Tape, _tier: Tier) -> Scenario {
                     pb: b.props.pb,
                     dict: dict as u32,
                     size: if b.marker { None } else { Some(b.expect.len() as u64) },
+                    pre: None,
                 };
                 note = format!("valid stream, raw dictionary {}", dict);
             } else {
@@ -127,6 +128,7 @@ fn gen(t: &mut Tape, _tier: Tier) -> Scenario {
                     pb: b.props.pb,
                     dict: b.dict_hdr,
                     size: if b.marker { None } else { Some(b.expect.len() as u64) },
+                    pre: None,
                 };
                 note = "valid stream".to_string();
             }
